@@ -115,7 +115,8 @@ def descOf (c : Char V P) : Option (Option String) :=
 def baseRep (c : Char V P) (iid : Option Nat) : CharRep V P :=
   { iid := iid, typ := c.typ, props := c.props, desc := c.descOf, value := none }
 
-/-- `get_value()`; `gout` = outcome of `to_valid_value(getter_callback())` (`none` = raised).
+/-- `get_value()`; `gout` = outcome of `to_valid_value(getter_callback())` followed by
+    `valid_value_or_raise` (`none` = the callback, the conversion or the valid-values check raised).
     With a getter the result is written through the `value` setter (clearing the caches). -/
 def getValue (c : Char V P) (gout : Option V) : Option V × Char V P :=
   if c.getter then
@@ -181,12 +182,16 @@ structure Service (V P : Type) where
   typ : String
   chars : List (Char V P)
   primary : Option Bool
+  /-- `linked_services`: the linked service objects, in the order they were linked -/
+  linked : List Nat := []
 
 structure SvcRep (V P : Type) where
   iid : Option Nat
   typ : String
   chars : List (CharRep V P)
   primary : Option Bool
+  /-- the `linked` member: the current iids of the linked services (`[]` = no such member) -/
+  linked : List (Option Nat) := []
   deriving DecidableEq
 
 /-- `Accessory` (a bridged one, or the top-level one) -/
@@ -232,7 +237,8 @@ def Service.toHap (cf : CharFn V P) (iids : Nat → Option Nat) (incl : Bool) (g
   match traverse (fun c => cf c (iids c.obj) incl (g c.obj)) sv.chars with
   | (none, cs) => (none, { sv with chars := cs })
   | (some rs, cs) =>
-    (some { iid := iids sv.obj, typ := sv.typ, chars := rs, primary := sv.primary }, { sv with chars := cs })
+    (some { iid := iids sv.obj, typ := sv.typ, chars := rs, primary := sv.primary,
+            linked := sv.linked.map iids }, { sv with chars := cs })
 
 /-- `Accessory.to_HAP` (not cached) -/
 def Accessory.toHap (cf : CharFn V P) (incl : Bool) (g : Nat → Option V) (a : Accessory V P) :
@@ -576,6 +582,15 @@ variable {V P : Type} [PropsLike P] [Inhabited V]
 def Accessory.setPrimary (a : Accessory V P) (typ : String) : Accessory V P :=
   { a with services := a.services.map (fun sv => { sv with primary := some (sv.typ == typ) }) }
 
+/-- `svc.add_linked_service(other)` for two services of this accessory: `other` is appended
+    unless a service with the same iid (under this accessory's manager) is already linked -/
+def Accessory.addLinked (a : Accessory V P) (svc other : Nat) : Accessory V P :=
+  { a with services := a.services.map (fun sv =>
+      if sv.obj = svc then
+        if sv.linked.any (fun l => a.iidm.getIid l == a.iidm.getIid other) then sv
+        else { sv with linked := sv.linked ++ [other] }
+      else sv) }
+
 /-- apply `f` to the accessory a script names (1 = top level, else the bridge's dict key) -/
 def Db.modAcc (s : Db V P) (aid : Nat) (f : Accessory V P → Accessory V P) : Db V P :=
   if aid = STANDALONE_AID then { s with main := f s.main }
@@ -583,6 +598,8 @@ def Db.modAcc (s : Db V P) (aid : Nat) (f : Accessory V P → Accessory V P) : D
 
 inductive Op11 (V P : Type) where
   | setValue (o : Nat) (vres : Option V)
+  /-- plain assignment through the public `value` property: `char.value = v` (no validation) -/
+  | assignValue (o : Nat) (v : V)
   | clientUpdate (o : Nat) (vres : Option V) (cbRaises : Bool)
   | overrideProps (o : Nat) (ov : Char.Override V P)
   | setDisplay (o : Nat) (n : Option String)
@@ -590,6 +607,8 @@ inductive Op11 (V P : Type) where
   | setAvailable (aid : Nat) (b : Bool)
   /-- `acc.set_primary_service(svc)` with a service of type `typ` -/
   | setPrimary (aid : Nat) (typ : String)
+  /-- `svc.add_linked_service(other)`, both services of accessory `aid` -/
+  | addLinked (aid : Nat) (svc other : Nat)
   /-- GET /accessories (`get_accessories(include_value)`) -/
   | readAll (incl : Bool) (g : Nat → Option V)
   /-- GET /characteristics?id=… -/
@@ -602,12 +621,14 @@ inductive Out11 (V P : Type) where
 
 def Db.step11 (s : Db V P) : Op11 V P → Db V P × Out11 V P
   | .setValue o vres => (s.modChar o (·.setValue vres), .none)
+  | .assignValue o v => (s.modChar o (·.setVal v), .none)
   | .clientUpdate o vres cb => (s.modChar o (·.clientUpdate vres cb), .none)
   | .overrideProps o ov => (s.modChar o (·.overrideProps ov), .none)
   | .setDisplay o n => (s.modChar o (·.setDisplay n), .none)
   | .setGetter o b => (s.modChar o (·.setGetter b), .none)
   | .setAvailable aid b => (s.modAcc aid (fun a => { a with available := b }), .none)
   | .setPrimary aid typ => (s.modAcc aid (·.setPrimary typ), .none)
+  | .addLinked aid svc other => (s.modAcc aid (·.addLinked svc other), .none)
   | .readAll incl g => match s.renderCached incl g with | (r, s') => (s', .accessories r)
   | .readChars ids g => match s.handleGet ids g with | (r, s') => (s', .chars r)
 
@@ -615,11 +636,71 @@ def Db.run11 (s : Db V P) : List (Op11 V P) → Db V P
   | [] => s
   | op :: rest => Db.run11 (s.step11 op).1 rest
 
-/-- what a from-scratch implementation answers to a read in state `s` -/
+/-! ### the read specification: what a characteristic read must answer, as a pure function of
+    the state in which the request arrives (no cache, no state threaded from id to id) -/
+
+/-- the accessory an aid names for a read: the top-level one for aid 1, else an entry of the
+    bridge's dict (`none`: no such accessory, or the top-level accessory is no bridge) -/
+def Db.accFor (s : Db V P) (aid : Nat) : Option (Accessory V P) :=
+  if aid = STANDALONE_AID then some s.main
+  else if !s.isBridge then none
+  else lookup aid s.bridged
+
+/-- the current value of the characteristic `iid` names in accessory `a`: the (validated) result
+    of its getter callback when one is installed (`gout`; `none` = it raised), else the stored
+    value; `none` when `iid` names no characteristic of the accessory -/
+def Accessory.valueSpec (a : Accessory V P) (iid : Nat) (gout : Option V) : Option V :=
+  match (a.iidm.getObj iid).bind a.findChar with
+  | none => none
+  | some c => if c.getter then gout else some c.value
+
+def mkEntry {V : Type} (aid iid : Nat) : Option V → Entry V
+  | some v => okEntry aid iid v
+  | none => failEntry aid iid
+
+/-- the entry a read of (aid, iid) must produce in state `s` (`none` = no entry) -/
+def Db.entrySpec (s : Db V P) (aid iid : Nat) (gout : Option V) : Option (Entry V) :=
+  if aid = STANDALONE_AID then some (mkEntry aid iid (s.main.valueSpec iid gout))
+  else if !s.isBridge then some (failEntry aid iid)
+  else
+    match lookup aid s.bridged with
+    | none => none
+    | some a => if !a.available then some (failEntry aid iid) else some (mkEntry aid iid (a.valueSpec iid gout))
+
+/-- the entries of a whole request: every id is judged against the SAME state `s` -/
+def Db.readSpec (s : Db V P) (g : Nat → Option V) : List (Nat × Nat) → Nat → List (Entry V)
+  | [], _ => []
+  | (aid, iid) :: rest, k =>
+    match s.entrySpec aid iid (g k) with
+    | none => Db.readSpec s g rest (k + 1)
+    | some e => e :: Db.readSpec s g rest (k + 1)
+
+/-- what a from-scratch implementation answers to a read in state `s`: the rendering that never
+    looks at a cache field, resp. the read specification above -/
 def Db.freshOut (s : Db V P) : Op11 V P → Out11 V P
   | .readAll incl g => .accessories (s.render incl g).1
-  | .readChars ids g => .chars (s.handleGet ids g).1
+  | .readChars ids g => .chars (selectStatus (s.readSpec g ids 0))
   | _ => .none
+
+/-! ### unified histories: construction, mutation and reads in any order -/
+
+inductive OpU (V P : Type) where
+  /-- a construction operation (C17's alphabet) -/
+  | con (op : Op V P)
+  /-- a value / metadata mutation or a read (C11's alphabet) -/
+  | db (op : Op11 V P)
+
+inductive OutU (V P : Type) where
+  | res (r : Res)
+  | out (o : Out11 V P)
+
+def Db.stepU (s : Db V P) : OpU V P → Db V P × OutU V P
+  | .con op => match s.step op with | (s', r) => (s', .res r)
+  | .db op => match s.step11 op with | (s', o) => (s', .out o)
+
+def Db.runU (s : Db V P) : List (OpU V P) → Db V P
+  | [] => s
+  | op :: rest => Db.runU (s.stepU op).1 rest
 
 end c11
 end Hap.Db
